@@ -218,7 +218,7 @@ Definition pyeq (a b : prop) : bool :=
   | _, _ => false
   end.
 Definition same_elt (a b : prop) : bool := hkey_eqb (hkey_of a) (hkey_of b) && pyeq a b.
-Fixpoint set_add (x : prop) (l : list prop) : list prop :=
+Definition set_add (x : prop) (l : list prop) : list prop :=
   if existsb (same_elt x) l then l else l ++ [x].
 Definition py_set (l : list prop) : list prop := fold_left (fun acc x => set_add x acc) l [].
 
